@@ -267,23 +267,38 @@ def check_col(ctx):
     if len(loops) == 1:
         l = loops[0]
         it = A.inline_temporaries(l.iter, l, fn)
-        if isinstance(it, ast.Call) and A.call_name(it) == "enumerate" and canon(it.args[0]) == canon(parse("np.unique(ids)[1:]")) and isinstance(l.target, ast.Tuple) and not it.args[1:] and not it.keywords:
-            j, idn = l.target.elts[0].id, l.target.elts[1].id
-            st = [s for s in l.body if isinstance(s, ast.Assign)]
-            if len(st) == 1 and len(l.body) == 1:
-                tgt = st[0].targets[0]
-                want = canon(parse("%s[ids == %s, %s + 1]" % (M, idn, j)))
-                ok = canon(tgt) == want and A.const_value(st[0].value) in (1, 1.0)
-                why = "loop body stores `%s = %s`, expected indicator of `ids == id` in column j + 1" % (A.unparse(tgt), A.unparse(st[0].value))
+        U = parse("np.unique(ids)")
+        K = ast.Name(id="K", ctx=ast.Load())
+        UK = ast.Subscript(value=U, slice=K, ctx=ast.Load())
+        env = None
+        # every accepted loop header enumerates k = 1 .. len(U) - 1 together with U[k]; env maps the loop variables to expressions in K
+        if isinstance(it, ast.Call) and A.call_name(it) == "enumerate" and it.args and canon(it.args[0]) == canon(parse("np.unique(ids)[1:]")) and isinstance(l.target, ast.Tuple) and len(l.target.elts) == 2:
+            start = A.get_arg(it, 1, "start")
+            s0 = 0 if start is None else A.const_value(start)
+            if isinstance(s0, int):
+                j, idn = l.target.elts[0].id, l.target.elts[1].id
+                env = {j: parse("K - %d" % (1 - s0)) if s0 != 1 else K, idn: UK}
+        elif isinstance(it, ast.Call) and A.call_name(it) == "range" and len(it.args) == 2 and A.const_value(it.args[0]) == 1 and canon(it.args[1]) == canon(parse("len(np.unique(ids))")) \
+                and isinstance(l.target, ast.Name):
+            env = {l.target.id: K}
+        elif isinstance(it, ast.Subscript) and canon(it) == canon(parse("np.unique(ids)[1:]")) and isinstance(l.target, ast.Name):
+            env = None   # no column index available from the header alone
+        if env is None:
+            why = "loop is `for %s in %s`: it does not enumerate the further unique ids together with their position" % (A.unparse(l.target), A.unparse(it))
+        else:
+            st = [s_ for s_ in l.body if isinstance(s_, ast.Assign)]
+            if len(st) == 1 and len(l.body) == 1 and isinstance(st[0].targets[0], ast.Subscript) and canon(st[0].targets[0].value) == M \
+                    and isinstance(st[0].targets[0].slice, ast.Tuple) and len(st[0].targets[0].slice.elts) == 2:
+                rows, col = st[0].targets[0].slice.elts
+                rows = A._Subst(env, False).visit(A.clone(A.inline_temporaries(rows, st[0], fn)))
+                col = A._Subst(env, False).visit(A.clone(A.inline_temporaries(col, st[0], fn)))
+                okr = canon(rows) in (canon(parse("ids == np.unique(ids)[K]")), canon(parse("np.unique(ids)[K] == ids")))
+                okc = equal(col, K)
+                ok = okr and okc and A.const_value(st[0].value) in (1, 1.0)
+                why = "loop body stores `%s = %s`: with k the position of the id among the unique ids, rows `%s`, column `%s` (expected rows ids == unique[k], column k)" % (
+                    A.unparse(st[0].targets[0]), A.unparse(st[0].value), A.unparse(rows)[:50], A.unparse(col)[:30])
             else:
                 why = "loop body is not the single indicator store (rows must be selected by the mask ids == id, not by position)"
-        elif isinstance(it, ast.Call) and A.call_name(it) == "enumerate" and canon(it.args[0]) == canon(parse("np.unique(ids)[1:]")) and A.const_value(A.get_arg(it, 1, "start")) == 1 and isinstance(l.target, ast.Tuple):
-            j, idn = l.target.elts[0].id, l.target.elts[1].id
-            st = [s for s in l.body if isinstance(s, ast.Assign)]
-            ok = len(st) == 1 and len(l.body) == 1 and canon(st[0].targets[0]) == canon(parse("%s[ids == %s, %s]" % (M, idn, j))) and A.const_value(st[0].value) in (1, 1.0)
-            why = "loop body with enumerate(start=1) does not store the indicator in column j"
-        else:
-            why = "loop is `for %s in %s`, not enumerate(unique(ids)[1:])" % (A.unparse(l.target), A.unparse(it))
     ctx.check(R, fn, "column j+1 = indicator of the (j+1)-th unique id", ok, why, key="indicator")
     idsdef = [s for s in fn.body if isinstance(s, ast.Assign) and canon(s.targets[0]) == "ids"]
     ctx.check(R, fn, "ids only normalised to an array", all(canon(s.value) == canon(parse("np.array(ids)")) for s in idsdef), "ids rewritten as %s" % [A.unparse(s.value) for s in idsdef], key="ids-norm", nontrivial=False)
